@@ -1066,12 +1066,17 @@ class Server(utils.EventEmitter):
             # Check if there is enough space
             entry_size = 2 + len(attribute_value)
 
+            if entry_size > pdu_space_available:
+                # The last value is truncated to what fits in the PDU
+                if pdu_space_available >= 2:
+                    length_value_tuple_list.append(
+                        (length, attribute_value[: pdu_space_available - 2])
+                    )
+                break
+
             # Add the attribute to the list
             length_value_tuple_list.append((length, attribute_value))
             pdu_space_available -= entry_size
-
-            if pdu_space_available <= 0:
-                break
 
         response = att.ATT_Read_Multiple_Variable_Response(
             length_value_tuple_list=length_value_tuple_list
